@@ -568,8 +568,15 @@ class DB:
         return c
 
     def closures_of(self, f):
-        pid = f.id
-        return [g for g in self.fns.values() if g.rec.get("parent") == pid]
+        ch = getattr(self, "_children", None)
+        if ch is None:
+            ch = defaultdict(list)
+            for g in self.fns.values():
+                p = g.rec.get("parent")
+                if p:
+                    ch[p].append(g)
+            self._children = ch
+        return ch.get(f.id, [])
 
     def all_nested(self, f):
         """f plus closures nested (transitively) in it"""
